@@ -15,16 +15,21 @@ RULE = (
     "single-character insert/delete/replace mutations of them; token soups over the grammar vocabulary; "
     "empty, blank and comment-only texts; texts ending inside a string, escape, comment, tag, PEEK[, "
     "repetition braces or rule; Hypothesis st.text() over all of Unicode (NUL, lone surrogates, astral); "
-    "valid grammars with undefined rules, reversed ranges, out-of-range \\u{...}. Each text is loaded with "
+    "valid grammars with undefined rules, reversed ranges, out-of-range \\u{...}, huge numbers, lone surrogates, "
+    "recursive stop rules, flat chains of 2,500 operands, the literal/escape matrix of C10; thorough tier: "
+    "plus an Atheris campaign per shard (candidates and corpus re-judged here). Each text is loaded with "
     "optimizer=None and with the default optimizer (separate workers). Oracle: Parser.from_grammar returns "
     "a Parser or raises PestGrammarError within the step budget; str(error) renders; a token carried by the "
-    "error lies within the text and the printed line:col names an existing line and a column within it. "
+    "error lies within the text and the printed line:col names an existing line and a column within it "
+    "(column base calibrated from the implementation). RecursionError on texts with >= 100 nesting characters "
+    "(K04) and step-budget overruns on texts with an estimated unrolled size > 1e4 (K05) are counted only. "
     "Non-trivial: text of length >= 3 that loads or is rejected at an offset > 0; distinct by hash of (text, "
     "optimizer)."
 )
 ASSUMPTIONS = [
-    "RecursionError from pathologically deep nesting is not generated (nesting depth of generated texts < 40)",
-    "the column base is not specified: a column within 0..len(line)+1 is accepted",
+    "the column base is whatever the implementation prints for an error at offset 0; the position just past the "
+    "last character of a line exists",
+    "wall-clock time is never an oracle: worker time-outs are isolated, counted and not reported",
 ]
 SIZES = {
     "quick": {"soups": 250, "texts": 150, "gen": 12, "mut": 2, "stride_big": 23},
